@@ -929,37 +929,36 @@ Proof. intros X g xs H. rewrite <- (map_id xs) at 2. apply map_ext_in. exact H. 
 
 Ltac sz := cbn [size]; lia.
 
-(* outside the float class the normalisation is the identity *)
-Lemma defloat_id : forall e, has_intfloat e = false -> defloat e = e.
+(* the normalisation is the identity (no float class any more) *)
+Lemma defloat_all : forall e, defloat e = e.
 Proof.
-  apply (size_ind (fun e => has_intfloat e = false -> defloat e = e)).
-  intros e IH K. destruct e; cbn [has_intfloat] in K; cbn [defloat]; osplit;
-    try reflexivity;
-    try (rewrite ?IH by (assumption || sz); reflexivity).
-  - destruct l as [z|id [k|]|id|id|b|]; try reflexivity. discriminate K.
-  - rewrite IH by (assumption || sz). f_equal. apply map_id_in. intros [o x] Hx. cbn [fst snd].
-    pose proof (in_sum (fun a => size (snd a)) _ _ Hx). cbn [snd] in *.
-    rewrite IH; [reflexivity | sz | exact (existsb_in (fun a => has_intfloat (snd a)) _ _ ltac:(eassumption) Hx)].
-  - rewrite IH by (assumption || sz).
+  apply (size_ind (fun e => defloat e = e)).
+  intros e IH. destruct e; cbn [defloat]; try reflexivity;
+    try (rewrite ?IH by sz; reflexivity).
+  - rewrite IH by sz. f_equal. apply map_id_in. intros [o x] Hx. cbn [fst snd].
+    pose proof (in_sum (fun a => size (snd a)) _ _ Hx). cbn [snd] in *. rewrite IH; [reflexivity | sz].
+  - rewrite IH by sz.
     assert (Ho : forall o : option expr, match o with Some y => size y | None => 0 end <= size (ESlice e s e0 st) - 1 - size e ->
-              match o with Some y => has_intfloat y | None => false end = false -> option_map defloat o = o).
-    { intros [y|] Hs Hk; [|reflexivity]. cbn [option_map]. rewrite IH; [reflexivity | cbn [size] in *; lia | exact Hk]. }
-    rewrite !Ho by (assumption || (cbn [size]; lia)). reflexivity.
-  - rewrite IH by (assumption || sz). f_equal. apply map_id_in. intros [o x] Hx. cbn [fst snd].
-    pose proof (in_sum (fun a => size (snd a)) _ _ Hx). cbn [snd] in *.
-    rewrite IH; [reflexivity | sz | exact (existsb_in (fun a => has_intfloat (snd a)) _ _ ltac:(eassumption) Hx)].
-  - f_equal. apply map_id_in. intros x Hx. pose proof (in_sum size _ _ Hx).
-    apply IH; [sz | exact (existsb_in has_intfloat _ _ K Hx)].
-  - f_equal. apply map_id_in. intros x Hx. pose proof (in_sum size _ _ Hx).
-    apply IH; [sz | exact (existsb_in has_intfloat _ _ K Hx)].
+              option_map defloat o = o).
+    { intros [y|] Hs; [|reflexivity]. cbn [option_map]. rewrite IH; [reflexivity | cbn [size] in *; lia]. }
+    rewrite !Ho by (cbn [size]; lia). reflexivity.
+  - rewrite IH by sz. f_equal. apply map_id_in. intros [o x] Hx. cbn [fst snd].
+    pose proof (in_sum (fun a => size (snd a)) _ _ Hx). cbn [snd] in *. rewrite IH; [reflexivity | sz].
+  - f_equal. apply map_id_in. intros x Hx. pose proof (in_sum size _ _ Hx). apply IH; sz.
+  - f_equal. apply map_id_in. intros x Hx. pose proof (in_sum size _ _ Hx). apply IH; sz.
   - f_equal. apply map_id_in. intros [k v] Hx. cbn [fst snd].
     pose proof (in_sum (fun kv => size (fst kv) + size (snd kv)) _ _ Hx) as Hs. cbn [fst snd] in Hs.
-    pose proof (existsb_in (fun kv => has_intfloat (fst kv) || has_intfloat (snd kv)) _ _ K Hx) as Hk. cbn [fst snd] in Hk.
-    apply orb_false_elim in Hk as [Hk1 Hk2].
-    rewrite !IH by (assumption || sz). reflexivity.
-  - f_equal. apply map_id_in. intros x Hx. pose proof (in_sum size _ _ Hx).
-    apply IH; [sz | exact (existsb_in has_intfloat _ _ K Hx)].
+    rewrite !IH by sz. reflexivity.
+  - f_equal. apply map_id_in. intros x Hx. pose proof (in_sum size _ _ Hx). apply IH; sz.
 Qed.
+
+Lemma defloat_id : forall e, has_intfloat e = false -> defloat e = e.
+Proof. intros e _. apply defloat_all. Qed.
+
+Theorem expr_roundtrip_full : forall e rest f,
+  wfb e = true -> stop 0 rest -> need e <= f ->
+  parse_expr f (print_expr e ++ rest) = POk (e, rest).
+Proof. intros e rest f W Hs Hf. rewrite <- (defloat_all e) at 2. apply expr_roundtrip_norm; assumption. Qed.
 
 Theorem expr_roundtrip : forall e rest f,
   wfb e = true -> has_intfloat e = false -> stop 0 rest -> need e <= f ->
@@ -968,53 +967,7 @@ Proof. intros e rest f W K2 Hs Hf. rewrite <- (defloat_id e K2) at 2. apply expr
 
 (* ------------------------------------------------------------------ idempotence at the token level *)
 Lemma print_defloat : forall e, wfb e = true -> print_expr (defloat e) = print_expr e.
-Proof.
-  apply (size_ind (fun e => wfb e = true -> print_expr (defloat e) = print_expr e)).
-  intros e IH W. destruct e; cbn [wfb] in W; try discriminate W;
-    try (cbn [defloat print_expr]; reflexivity);
-    match goal with |- context [ECall] => idtac | |- context [EMethod] => idtac | _ => cbn [defloat print_expr] end.
-  - destruct l as [z|id [k|]|id|id|b|]; try reflexivity. cbn [defloat_lit print_lit].
-    apply Z.leb_le in W. destruct (k <? 0)%Z eqn:E; [apply Z.ltb_lt in E; lia|reflexivity].
-  - bsplit. rewrite !IH by (assumption || sz). reflexivity.
-  - destruct o; bsplit; rewrite IH by (assumption || sz); reflexivity.
-  - bsplit. cbn [defloat].
-    rewrite ?print_call, ?print_method.
-    assert (E : map print_arg (map (fun a => (fst a, defloat (snd a))) args) = map print_arg args).
-    { rewrite map_map. apply map_ext_in. intros [o x] Hx. unfold print_arg. cbn [fst snd].
-      pose proof (in_sum (fun a => size (snd a)) _ _ Hx). cbn [snd] in *.
-      rewrite IH; [reflexivity | sz | exact (forallb_in (fun a => wfb (snd a)) _ _ ltac:(eassumption) Hx)]. }
-    rewrite E, IH by (assumption || sz). reflexivity.
-  - bsplit. rewrite !IH by (assumption || sz). reflexivity.
-  - bsplit. rewrite IH by (assumption || sz).
-    assert (Ho : forall o : option expr, match o with Some y => size y | None => 0 end <= size (ESlice e s e0 st) - 1 - size e ->
-              wf_opt wfb o = true -> match option_map defloat o with Some y => print_expr y | None => [] end = match o with Some y => print_expr y | None => [] end).
-    { intros [y|] Hs Hk; [|reflexivity]. cbn [option_map]. rewrite IH; [reflexivity | cbn [size] in *; lia | exact Hk]. }
-    pose proof (Ho s ltac:(cbn [size]; lia) ltac:(assumption)) as Q1.
-    pose proof (Ho e0 ltac:(cbn [size]; lia) ltac:(assumption)) as Q2.
-    pose proof (Ho st ltac:(cbn [size]; lia) ltac:(assumption)) as Q3.
-    destruct s, e0, st; cbn [option_map] in *; rewrite ?Q1, ?Q2, ?Q3; try reflexivity;
-      repeat match goal with H : print_expr _ = print_expr _ |- _ => rewrite H; clear H end; reflexivity.
-  - bsplit. rewrite IH by (assumption || sz). reflexivity.
-  - bsplit. cbn [defloat].
-    rewrite ?print_call, ?print_method.
-    assert (E : map print_arg (map (fun a => (fst a, defloat (snd a))) args) = map print_arg args).
-    { rewrite map_map. apply map_ext_in. intros [o x] Hx. unfold print_arg. cbn [fst snd].
-      pose proof (in_sum (fun a => size (snd a)) _ _ Hx). cbn [snd] in *.
-      rewrite IH; [reflexivity | sz | exact (forallb_in (fun a => wfb (snd a)) _ _ ltac:(eassumption) Hx)]. }
-    rewrite E, IH by (assumption || sz). reflexivity.
-  - bsplit. rewrite IH by (assumption || sz). reflexivity.
-  - bsplit. rewrite IH by (assumption || sz). reflexivity.
-  - assert (E : map print_expr (map defloat es) = map print_expr es).
-    { rewrite map_map. apply map_ext_in. intros x Hx. pose proof (in_sum size _ _ Hx).
-      apply IH; [sz | exact (forallb_in wfb _ _ W Hx)]. }
-    rewrite E. destruct es as [|x [|y ys]]; reflexivity.
-  - assert (E : map print_expr (map defloat es) = map print_expr es).
-    { rewrite map_map. apply map_ext_in. intros x Hx. pose proof (in_sum size _ _ Hx).
-      apply IH; [sz | exact (forallb_in wfb _ _ W Hx)]. }
-    rewrite E. reflexivity.
-  - rewrite IH by (assumption || sz). reflexivity.
-  - bsplit. rewrite !IH by (assumption || sz). reflexivity.
-Qed.
+Proof. intros e _. rewrite defloat_all. reflexivity. Qed.
 
 (* fmt_src: parse a token text and print the result (None if it does not parse completely) *)
 Definition fmt_src (fuel : nat) (ts : list tok) : option (list tok) :=
